@@ -913,9 +913,15 @@ func (fx *FuncCtx) ghostAssign(st *State, env *SpecEnv, gs GhostStmt, cond strin
 	var newVal string
 	switch {
 	case gs.BulkVar != "":
-		gm, ok := gt.(*GhostMap)
-		if !ok || idx == nil {
-			sfail("bulk ghost update needs a ghost map element on the left")
+		var gmV types.Type
+		switch g := gt.(type) {
+		case *GhostMap:
+			gmV = g.V
+		case *GhostSet:
+			gmV = BoolT
+		}
+		if gmV == nil || idx == nil {
+			sfail("bulk ghost update needs a ghost map / set element on the left")
 		}
 		id, ok := idx.(*EIdent)
 		if !ok || id.Name != gs.BulkVar {
@@ -926,7 +932,7 @@ func (fx *FuncCtx) ghostAssign(st *State, env *SpecEnv, gs GhostStmt, cond strin
 		fx.decls.n++
 		q := fmt.Sprintf("q$%s!%d", gs.BulkVar, fx.decls.n)
 		ne := env.with(map[string]Val{gs.BulkVar: {T: MathInt, C: []string{q}}})
-		rhs := ne.coerce(ne.eval(gs.RHS), gm.V)
+		rhs := ne.coerce(ne.eval(gs.RHS), gmV)
 		na := fx.decls.fresh("gbulk", fx.mode.comps(gt)[0].sort)
 		body := eq(sx("select", na, q), ite(and(sx("<=", lo, q), sx("<", q, hi)), rhs, sx("select", curVal, q)))
 		st.assume("(forall ((" + q + " Int)) (! " + body + " :pattern (" + sx("select", na, q) + ")))")
@@ -976,6 +982,11 @@ func (fx *FuncCtx) callEffects(cc *ssa.CallCommon, cellSet map[ssa.Value]bool, k
 				for _, c := range fx.mode.comps(sl.Elem()) {
 					k := fx.elemKey(sl.Elem(), c)
 					keySet[k.Key] = k
+					if b.Name() == "copy" {
+						fx.noteEff(k.Key, cc.Args[0])
+					} else {
+						fx.noteEff(k.Key, nil)
+					}
 				}
 			}
 		case "delete":
@@ -1088,7 +1099,7 @@ func (fx *FuncCtx) callEffects(cc *ssa.CallCommon, cellSet map[ssa.Value]bool, k
 			for _, k := range t.keys {
 				keySet[k.Key] = k
 				if t.elems {
-					fx.noteEff(k.Key, nil)
+					fx.noteEff(k.Key, dummyArg[t.ref])
 				} else {
 					fx.noteEff(k.Key, dummyArg[t.ref])
 				}
